@@ -249,6 +249,26 @@ func (g *c05Gen) mutants(src string) []c05Mutant {
 	add("unused-variable", anywhere, func() []string {
 		return [][]string{{"unused_" + tag + " := 1"}, {"unused_" + tag + ":[]num"}}[rng.Intn(2)]
 	})
+	// the binder positions of the scope rules: loop variables (all range forms), parameters (incl. variadic), handler parameters
+	add("unused-variable", anywhere, func() []string {
+		return [][]string{{"for ul_" + tag + " := range 3", "    print 1", "end"}, {"for ul_" + tag + " := range [1 2]", "    print 1", "end"},
+			{"for ul_" + tag + " := range {a:1}", "    print 1", "end"}, {"for ul_" + tag + " := range \"ab\"", "    print 1", "end"},
+			{"for range 2", "    ul_" + tag + " := 1", "end"}, {"while true", "    ul_" + tag + " := 1", "    break", "end"},
+			{"if true", "    print 1", "else", "    ul_" + tag + " := 1", "end"}}[rng.Intn(7)]
+	})
+	add("unused-variable", top, func() []string {
+		return [][]string{{"func up_" + tag + " p:num", "    print 1", "end", "up_" + tag + " 1"}, {"func up_" + tag + " p:num...", "    print 1", "end", "up_" + tag + " 1"},
+			{"func up_" + tag + ":num p:num q:string", "    return p", "end", "print (up_" + tag + " 1 \"a\")"}}[rng.Intn(3)]
+	})
+	add("redeclaration-same-scope", anywhere, func() []string {
+		return [][]string{{"for dl_" + tag + " := range 2", "    dl_" + tag + " := \"again\"", "    print dl_" + tag, "end"},
+			{"for dl_" + tag + " := range [1 2]", "    print dl_" + tag, "    dl_" + tag + " := 3", "    print dl_" + tag, "end"}}[rng.Intn(2)]
+	})
+	add("redeclaration-same-scope", top, func() []string {
+		return [][]string{{"func dp_" + tag + " p:num", "    p := 2", "    print p", "end", "dp_" + tag + " 1"},
+			{"func dp_" + tag + " p:num p:string", "    print p", "end", "dp_" + tag + " 1 \"a\""},
+			{"func dp_" + tag + " p:num...", "    print p", "    p:string", "    print p", "end", "dp_" + tag + " 1"}}[rng.Intn(3)]
+	})
 	add("redeclaration-same-scope", anywhere, func() []string {
 		return [][]string{{"dup_" + tag + " := 1", "dup_" + tag + " := 2", "print dup_" + tag},
 			{"dup_" + tag + ":num", "dup_" + tag + ":string", "print dup_" + tag}}[rng.Intn(2)]
@@ -467,6 +487,15 @@ func runC05(cfg Config, r *Result) {
 	g := &c05Gen{cfg: cfg, all: cfg.Tier == "thorough", per: 2}
 	var progs []string
 	progs = append(progs, c05Seeds...)
+	// handler parameters are binders too (an `on` definition cannot be inserted into an arbitrary program: one handler per event)
+	for _, hp := range []c05Mutant{
+		{Src: "on key k:string\n    print 1\nend\n", Rule: "unused-variable", Pos: "handler-parameter"},
+		{Src: "on down x:num y:num\n    print x\nend\n", Rule: "unused-variable", Pos: "handler-parameter"},
+		{Src: "on key k:string\n    k := 2\n    print k\nend\n", Rule: "redeclaration-same-scope", Pos: "handler-parameter"},
+		{Src: "on down x:num y:num\n    print x y\n    y:string\n    print y\nend\n", Rule: "redeclaration-same-scope", Pos: "handler-parameter"},
+	} {
+		c05Check(c, hp, "")
+	}
 	// recorded witnesses (already rule-breaking programs) are replayed as they are
 	for _, w := range corpusFiles("C05") {
 		c05Check(c, c05Mutant{Src: w, Rule: "stray-text-after-end", Pos: "corpus-file"}, "")
